@@ -209,7 +209,7 @@ def View.leaves : View → Bool
   | .show _ _ _ => false
   | .forKeyed _ _ => false
   | .scope _ _ _ => false
-  | .forRows _ _ _ => false
+  | .forRows _ _ _ _ => false
 
 theorem View.leaves_core : ∀ (v : View), v.leaves = true → v.core = true
   | .text _, _ => rfl
@@ -223,7 +223,7 @@ theorem View.leaves_core : ∀ (v : View), v.leaves = true → v.core = true
   | .show _ _ _, h => by simp [View.leaves] at h
   | .forKeyed _ _, h => by simp [View.leaves] at h
   | .scope _ _ _, h => by simp [View.leaves] at h
-  | .forRows _ _ _, h => by simp [View.leaves] at h
+  | .forRows _ _ _ _, h => by simp [View.leaves] at h
 
 section rerunLeaf
 variable {K : Nat} {st st' : St} {e : Nat} {w : Int}
@@ -327,7 +327,7 @@ theorem rerunIn_leaf : ∀ (v : View) (t : RState) (s0 : St), Good K st v t → 
   | either c a b _ _ => intro t s0 _ hl; simp [View.leaves] at hl
   | «show» c a b _ _ => intro t s0 _ hl; simp [View.leaves] at hl
   | scope sid d kid _ => intro t s0 _ hl; simp [View.leaves] at hl
-  | forRows sel lists row _ => intro t s0 _ hl; simp [View.leaves] at hl
+  | forRows en sel lists row _ => intro t s0 _ hl; simp [View.leaves] at hl
   | forKeyed sel lists => intro t s0 _ hl; simp [View.leaves] at hl
 
 end rerunLeaf
